@@ -206,7 +206,35 @@ def replay(inp):
     if inp.get("kind") == "order":
         d = order_failure(inp["phases"], perms=tuple(range(1, 9)))
         return {"fails": d is not None, "detail": d}
+    if inp.get("kind") == "order2":
+        d = order2_failure(inp["phases_a"], inp["phases_b"])
+        return {"fails": d is not None, "detail": d}
     return {"error": "unknown input kind"}
+
+
+def order2_failure(desc_a, desc_b):
+    """the same statements presented in two explicit orders"""
+    a, b = infer(desc_a, 0), infer(desc_b, 0)
+    if a[0] == "ok" and b[0] == "ok" and a != b:
+        return "table differs between two presentation orders of the same statements: %r vs %r" % (a[1:], b[1:])
+    if a[0] != b[0]:
+        return "inference %s in one presentation order and %s in another" % (a, b)
+    return None
+
+
+REFINEMENTS = [("real", "cplx"), ("int", "real"), ("int", "cplx"), ("real", "arr"), ("arr", "carr"), ("real", "carr"),
+               ("int", "arr")]
+
+
+def refinement_chains(max_len):
+    """v0 gets two unifiable kinds (the second refines the first); v1 <- v0, v2 <- v1, ...: the refinement has to
+    travel down the chain whatever the presentation order, which takes one sweep per link in adverse orders"""
+    for lo, hi in REFINEMENTS:
+        for n in range(1, max_len + 1):
+            stmts = [["call", "v0", lo], ["call", "v0", hi]]
+            for i in range(n):
+                stmts.append([("copy", "sum", "prod")[i % 3], "v%d" % (i + 1), "v%d" % i] + (["v%d" % i] if i % 3 else []))
+            yield stmts
 
 
 def bounded(payload):
@@ -254,6 +282,21 @@ def bounded(payload):
                 continue
             failures.append({"oracle": "order-independence", "input": {"kind": "order", "phases": desc},
                              "detail": d})
+    # refinement chains in every presentation order (a fixed point must be reached from each of them)
+    nchain = 0
+    for stmts in refinement_chains(budget.get("chain_len", 3)):
+        perms = list(itertools.permutations(range(len(stmts))))
+        for pi, perm in enumerate(perms):
+            if len(perms) > 130 and (pi + seed) % 5:
+                continue
+            evals += 1
+            nchain += 1
+            other = [stmts[i] for i in perm]
+            d = order2_failure([stmts], [other])
+            if d and sum(1 for f in failures if f["oracle"] == "order-independence(chain)") < 3:
+                failures.append({"oracle": "order-independence(chain)",
+                                 "input": {"kind": "order2", "phases_a": [stmts], "phases_b": [other]}, "detail": d})
+    distinct.add(("chains", nchain))
     for e in payload.get("known", []):
         r = replay(e["native"])
         if r.get("fails"):
@@ -262,9 +305,11 @@ def bounded(payload):
             "rule": "exhaustive: 9 kinds (None, Boolean, Integer, Scalar x2, Array x2, UserType a/b), all pairs for "
                     "idempotence/commutativity and all triples for associativity on the real unify; plus %d seeded "
                     "random programs (<=2 phases, <=6 assignments over 6 names, 7 fixed-kind sources) inferred in 4 "
-                    "presentation orders; distinct = distinct argument tuples / programs on which inference succeeded" % nprog,
+                    "presentation orders; plus refinement chains (a variable assigned two unifiable kinds, copied down a "
+                    "chain of <=3 links; 7 kind pairs) in all (<=120) or every 5th (720) presentation orders; distinct = "
+                    "distinct argument tuples / programs on which inference succeeded" % nprog,
             "bound": "kind universe with 2 user-type identifiers; programs <= 12 statements",
             "samples": samples, "failures": failures[:20], "known_hits": known_hits,
-            "parts": {"law_cases": 9 * 9 * 2 + 9 ** 3, "programs": nprog, "programs_inferred": nontrivial,
+            "parts": {"law_cases": 9 * 9 * 2 + 9 ** 3, "programs": nprog, "refinement_chain_orders": nchain, "programs_inferred": nontrivial,
                       "programs_with_known_D5_fingerprint": d5},
             "exhaustive": False}
